@@ -53,7 +53,17 @@ def run(tier, seed):
                              workers=4 if tier == "quick" else 12)
     transitions += gen2
     faulty = Q.faulty_copies(behs, len(behs) // 2)
-    res, inp = Q.replay(PROP, behs + behs2 + faulty, "sim")
+    behs7, gen7, info7 = Q.committee7(PROP, tier, seed, INV)
+    transitions += gen7
+    if tier == "thorough":
+        # committee 7 with both faulty members silent: a time box, usually not exhaustive (772 k distinct in 300 s)
+        info = Q.run_exhaustive(PROP, "A0-N7-two-silent", invariants=INV, properties=PROPS, timeout=1020, stop_after=900,
+                                workers=vlib.NCPU, N=7, F=2, Byz="{6, 7}", ByzBudget=0, ByzActs="NoActs", MaxRound=2)
+        info["scope_note"] = "time box; not part of the exhaustive claim"
+        info7["timebox"] = info
+        states += info["distinct"]
+        transitions += info["generated"]
+    res, inp = Q.replay(PROP, behs + behs2 + faulty + behs7, "sim")
     Q.collect(PROP, res, verdict, inp, foreign)
     # ---- 3. attack traces (weakened specs) replayed on the real code ----
     abehs, stale = Q.attack_behaviours(PROP, tier, PROP)
@@ -77,11 +87,12 @@ def run(tier, seed):
         "detail": {"configs": configs, "attack_traces": [b["id"] for b in abehs], "stale_attacks": stale,
                    "divergences": div, "binding_selftest": selftest, "divergence_samples": res["divergences"][:5],
                    "attack_steps_refused": ares["counters"].get("attack_steps_refused", 0),
-                   "foreign_signatures_seen": foreign,
+                   "foreign_signatures_seen": foreign, "committee7": info7,
                    "exhaustive_scope": "per adversary class only (see configs); never for all Byzantine behaviours"},
     }
     vlib.write_evidence(PROP, tier, seed, "model_checking", cov, time.time() - t0, [
-        "N=4, f=1, Byzantine operator 4, 2 valid values + 1 invalid, rounds <= MaxRound of each config",
+        "exhaustive classes: N=4, f=1, Byzantine operator 4, 2 valid values + 1 invalid, rounds <= MaxRound of each config",
+        "committee 7 (f=2, Byzantine operators 6 and 7): macro-grain simulations replayed on real controllers only",
         "macro grain (quorum-at-once delivery of prepares/commits) in exhaustive configs; fine grain in replays",
         "BLS signatures are unforgeable (adversary signs only with operator 4's key)",
     ], len(verdict.violations))
